@@ -47,7 +47,9 @@ use serde_json::{Value, json};
 use tokio::sync::Semaphore;
 
 const BUDGET: Duration = Duration::from_secs(20);
-const UNIVERSE: [&str; 4] = ["c40/a", "c40/b", "c40/c", "c40/d"];
+/// Protocol names are byte strings: the third is not valid UTF-8 and the fourth is what a lossy
+/// conversion of the third looks like, so the two must never be confused.
+const UNIVERSE: [&[u8]; 4] = [b"c40/a", b"c40/b", b"c40/\xff\xfe", "c40/\u{fffd}\u{fffd}".as_bytes()];
 
 #[derive(Clone, Copy, Debug, PartialEq, Eq)]
 enum Mode {
@@ -98,7 +100,7 @@ struct Dial {
 }
 
 fn name_of(i: usize) -> Vec<u8> {
-    if i < 4 { UNIVERSE[i].as_bytes().to_vec() } else { format!("c40/x{i}").into_bytes() }
+    if i < 4 { UNIVERSE[i].to_vec() } else { format!("c40/x{i}").into_bytes() }
 }
 
 #[derive(Clone, Debug)]
@@ -184,7 +186,7 @@ fn marker(dial: u64, mode: Mode) -> Vec<u8> {
 
 fn parse_marker(alpns: &[Vec<u8>]) -> Option<(u64, Mode)> {
     for a in alpns {
-        let s = std::str::from_utf8(a).ok()?;
+        let Ok(s) = std::str::from_utf8(a) else { continue };
         if let Some(rest) = s.strip_prefix("m/") {
             let (id, mode) = rest.split_once('/')?;
             return Some((id.parse().ok()?, Mode::from(mode)?));
